@@ -133,8 +133,29 @@ func c07Case(rt *rapid.T, rec *vt.Rec) {
 	// one withdrawal, sequentially, against the model
 	withdraw := func(wi int, settleFails bool) {
 		w := wallets[wi]
+		// the wallet may earn (or spend) while the slow settlement is in flight: what was not settled stays owed
+		during := new(big.Int)
+		if rapid.IntRange(0, 2).Draw(rt, "changeDuringSettle") == 0 {
+			during = big.NewInt(int64(rapid.SampledFrom([]int{1, 100, -100, 250, 123456789}).Draw(rt, "during")))
+		}
+		viaNode := rapid.Bool().Draw(rt, "duringViaNode")
 		s.mu.Lock()
-		s.settleHook = func(store.Account, *big.Int) error {
+		s.settleHook = func(acct store.Account, _ *big.Int) error {
+			if during.Sign() != 0 {
+				var err error
+				if viaNode {
+					node := 2
+					if wi == 0 {
+						node = 0
+					}
+					err = s.raw.AddNodeBalance(store.NodeID(s.agents[node].id.nodeID), during)
+				} else {
+					err = s.raw.AddAccountBalance(acct, during)
+				}
+				if err != nil {
+					return err
+				}
+			}
 			if settleFails {
 				return errScripted
 			}
@@ -145,7 +166,11 @@ func c07Case(rt *rapid.T, rec *vt.Rec) {
 		total := c.total(w.addr)
 		err := s.withdraw(w)
 		n1, _ := c.settleCount()
-		c.logf("withdraw %s (model total %s, settleFails=%v) -> %v", w.name, total, settleFails, err)
+		c.logf("withdraw %s (model total %s, settleFails=%v, credit changes by %s while settling) -> %v", w.name, total, settleFails, during, err)
+		settleRan := !cfg.NoSettle && !(cfg.WithdrawMin != nil && total.Cmp(cfg.WithdrawMin) < 0)
+		if settleRan && during.Sign() != 0 {
+			c.classes["credit-changed-during-settle"] = true
+		}
 		c.nWithdrawOn[w.addr]++
 		belowMin := cfg.WithdrawMin != nil && total.Cmp(cfg.WithdrawMin) < 0
 		switch {
@@ -178,12 +203,13 @@ func c07Case(rt *rapid.T, rec *vt.Rec) {
 				if err == nil {
 					c.fail("settlement failed but withdraw returned success")
 				}
+				c.w[w.addr].credit.Add(c.w[w.addr].credit, during)
 				c.classes["settle-failed"] = true
 			} else {
 				if err != nil {
 					c.fail("withdraw of %s failed: %v", w.name, err)
 				}
-				c.w[w.addr].credit.SetInt64(0)
+				c.w[w.addr].credit.Set(during)
 				c.w[w.addr].deposit.SetInt64(0)
 				c.classes["paid"] = true
 				if total.Sign() > 0 {
@@ -396,7 +422,7 @@ func c07Case(rt *rapid.T, rec *vt.Rec) {
 		c.kinds = append(c.kinds, op)
 		c.checkBalances(op)
 	}
-	nontrivial := c.classes["race"] || c.classes["settle-failed"]
+	nontrivial := c.classes["race"] || c.classes["settle-failed"] || c.classes["credit-changed-during-settle"]
 	for a, k := range c.nWithdrawOn {
 		if k >= 2 && c.accruedBetween[a] {
 			nontrivial = true
